@@ -106,6 +106,10 @@ let run (toks : string list) (obs : string) : string =
     end
   | "dec" :: [h] -> model_dec (bytes_of_hex h)
   | "decx" :: h :: _ -> model_dec (bytes_of_hex h)
+  | "decm" :: [h] ->
+    (* allocation figures are measured on the real code only; echo them so that only the result is compared *)
+    let tail = (match split_bar obs with [_; m] -> " | " ^ m | _ -> "") in
+    model_dec (bytes_of_hex h) ^ tail
   | "dect" :: k :: h :: _ ->
     let k = int_of_string k in
     model_dec (List.filteri (fun i _ -> i < k) (bytes_of_hex h))
@@ -153,6 +157,15 @@ let oracle (toks : string list) (obs : string) : (string * bool) list =
   | "decx" :: h :: expected ->
     (* expected observation computed by the independent reference encoder of the generator *)
     ["C12.decode_reference", obs = String.concat " " expected]
+  | "decm" :: [h] ->
+    let len = if h = "-" then 0 else String.length h / 2 in
+    (match split_bar obs with
+     | [_; m] ->
+       (try Scanf.sscanf m "peak=%d largest=%d" (fun peak largest ->
+          ["C14.alloc_bounded", peak <= 256 * len + 131072 && largest <= 256 * len + 70000;
+           "C03.alloc_bounded", peak <= 256 * len + 131072 && largest <= 256 * len + 70000])
+        with _ -> ["C14.observation_shape", false])
+     | _ -> ["C14.observation_shape", false])
   | "dect" :: _ :: _ :: full ->
     let vs, _ = parse_values full in
     let ok =
